@@ -640,3 +640,11 @@ pub fn inconclusive(ev: &Evidence, why: &str) -> ! {
     ev.write(0);
     std::process::exit(2);
 }
+
+impl SplitMix {
+    /// Random byte string of random length below `max_len`.
+    pub fn blob(&mut self, max_len: u64) -> Vec<u8> {
+        let l = self.below(max_len) as usize;
+        self.bytes(l)
+    }
+}
